@@ -65,7 +65,7 @@ deriving Repr, DecidableEq
 
 mutual
 /-- A node: kind, number of NodeProtos its `to_onnx` returned, whether all its input/output types
-    are tensors of known rank, its subgraphs (bodies in attribute order; for `func` the function graph),
+    are tensors of known rank and none of its attributes is a reference (`_Ref`), its subgraphs (bodies in attribute order; for `func` the function graph),
     and a number identifying its (unique) node name. -/
 inductive PNode where
   | mk (kind : Kind) (nProtos : Nat) (concrete : Bool) (subs : List PGraph) (id : Nat)
@@ -215,9 +215,11 @@ def adaptGraph (F : Facts) (extra : List Req) : PGraph → List Entry
 /-! ## functions -/
 
 mutual
-/-- `BuildResult.functions` of a graph: the `Function` nodes placed in the graph itself (not in
-    bodies of its nodes — the pinned code does not merge those upward), each followed by the
-    functions of its own graph. Returned as the function graphs. -/
+/-- `BuildResult.functions` of a graph: first the `Function` nodes placed in the graph itself, each
+    followed by the functions of its own graph; then the functions of the bodies of its other nodes
+    (merged upward by `build_subgraph`). Returned as the function graphs. -/
+def funcsOfGraph : PGraph → List PGraph
+  | .mk nodes => funcsOfNodes nodes ++ subFuncsOfNodes nodes
 def funcsOfNodes : List PNode → List PGraph
   | [] => []
   | n :: ns => funcsOfNode n ++ funcsOfNodes ns
@@ -227,8 +229,15 @@ def funcsOfNode : PNode → List PGraph
 def funcsOfBodies : List PGraph → List PGraph
   | [] => []
   | g :: gs => (g :: funcsOfGraph g) ++ funcsOfBodies gs
-def funcsOfGraph : PGraph → List PGraph
-  | .mk nodes => funcsOfNodes nodes
+def subFuncsOfNodes : List PNode → List PGraph
+  | [] => []
+  | n :: ns => subFuncsOfNode n ++ subFuncsOfNodes ns
+def subFuncsOfNode : PNode → List PGraph
+  | .mk (.func _ _) _ _ _ _ => []
+  | .mk _ _ _ subs _ => funcsOfGraphs subs
+def funcsOfGraphs : List PGraph → List PGraph
+  | [] => []
+  | g :: gs => funcsOfGraph g ++ funcsOfGraphs gs
 end
 
 /-- What `to_onnx_model` assembles, at the level of opsets. -/
@@ -244,6 +253,13 @@ def buildModel (F : Facts) (g : PGraph) : ModelOut :=
   let imports := opsetsOf F [] g
   { imports := imports
     main := adaptGraph F [] g
+    funcs := (funcsOfGraph g).map (fun fg => (opsetsOf F imports fg, adaptGraph F imports fg)) }
+
+/-- The same for a graph with extra requirements (`Graph.with_opset(*extra)`, e.g. `("ai.onnx", 17)`). -/
+def buildModelWith (F : Facts) (extra : List Req) (g : PGraph) : ModelOut :=
+  let imports := opsetsOf F extra g
+  { imports := imports
+    main := adaptGraph F extra g
     funcs := (funcsOfGraph g).map (fun fg => (opsetsOf F imports fg, adaptGraph F imports fg)) }
 
 /-! ## names introduced by adaptation -/
